@@ -21,6 +21,8 @@ fn assumptions() -> Vec<String> {
 pub fn mixed_history(rng: &mut Rng, c: u32, l: u32, n: usize, with_clear: bool) -> Vec<Op> {
     let mut ops: Vec<Op> = Vec::new();
     let (mut cc, mut cl) = (c, l);
+    // sizes the screen has had: a later resize (or a DECCOLM switch) often returns to one of them
+    let mut sizes: Vec<(u32, u32)> = vec![(c, l)];
     for _ in 0..n {
         // an earlier operation of this history again, verbatim (see gen::session)
         if ops.len() > 2 && rng.below(12) == 0 {
@@ -56,6 +58,13 @@ pub fn mixed_history(rng: &mut Rng, c: u32, l: u32, n: usize, with_clear: bool) 
                     1 => cc + rng.range(0, 3),
                     _ => rng.range(1, cc + 2),
                 };
+                if rng.below(3) == 0 {
+                    // exactly a size the screen had before (a relation between two operations)
+                    let (pc, pl) = *rng.pick(&sizes);
+                    cc = pc;
+                    cl = pl;
+                }
+                sizes.push((cc, cl));
                 let (a, b) = match rng.below(5) {
                     0 => (Some(cl), None),
                     1 => (None, Some(cc)),
